@@ -66,7 +66,8 @@ func (w *World) elementReads(li *loopInfo, reachesRD map[*ssa.Function]bool) []*
 				continue
 			}
 			for _, cal := range w.calleesOf(c) {
-				if reachesRD[cal] {
+				// a method value (`next := d.ReadData`) is called through its bound wrapper
+				if reachesRD[cal] || reachesRD[w.throughWrapper(cal)] {
 					out = append(out, c)
 					break
 				}
@@ -121,12 +122,34 @@ func (w *World) ruleLoopExits(r *Report, rule string, listsOnly bool) {
 	}
 	reachesRD := w.canReach(map[*ssa.Function]bool{rd: true})
 	nLoops := 0
-	for _, fn := range w.SrcFuncs() {
-		recv := fn.Signature.Recv()
-		if recv == nil || !namedIs(recv.Type(), hessianPath, "Decoder") {
-			continue
+	// the element loop of a container reader may sit in the reader itself, in a
+	// helper it hands the element source to (`collectList(shape, next, put)`,
+	// `pairs.consume()`) or in a closure: every package function is looked at,
+	// a loop is an element loop when it contains an element read (loops_fv.go)
+	var listScope map[*ssa.Function]bool
+	if listsOnly {
+		listScope = w.readerDelegates("(*Decoder).readTypedList", "(*Decoder).readUntypedList")
+	}
+	// floor: the container readers (the functions that register a container: list
+	// and map readers) whose element loop was examined, wherever that loop sits —
+	// two readers sharing one loop helper are two readers served
+	delegates := map[*ssa.Function]map[*ssa.Function]bool{}
+	if listsOnly {
+		for _, n := range []string{"(*Decoder).readTypedList", "(*Decoder).readUntypedList"} {
+			if f := w.fn(n); f != nil {
+				delegates[f] = w.readerDelegates(n)
+			}
 		}
-		if listsOnly && !(fnName(fn) == "(*Decoder).readTypedList" || fnName(fn) == "(*Decoder).readUntypedList") {
+	} else if reg := w.decRegistrar(); reg != nil {
+		for _, f := range w.SrcFuncs() {
+			if f != reg && len(callsTo(f, reg)) > 0 {
+				delegates[f] = w.readerDelegates(fnName(f))
+			}
+		}
+	}
+	served := map[*ssa.Function]bool{}
+	for _, fn := range w.SrcFuncs() {
+		if listsOnly && !listScope[fn] {
 			continue
 		}
 		loops := naturalLoops(fn)
@@ -136,12 +159,27 @@ func (w *World) ruleLoopExits(r *Report, rule string, listsOnly bool) {
 				continue
 			}
 			nLoops++
+			for rdr, del := range delegates {
+				if del[fn] {
+					served[rdr] = true
+				}
+			}
 			r.fnSeen(fnName(fn))
 			readSet := map[*ssa.Call]bool{}
 			for _, c := range reads {
 				readSet[c] = true
 			}
 			loopKey := fmt.Sprintf("%s · loop#%d", fnName(fn), li+1)
+			// an element source handed in as a function value must not make up the
+			// terminator report itself
+			for _, c := range reads {
+				if c.Call.StaticCallee() != nil {
+					continue
+				}
+				if okS, factS := w.elementSourceForwards(c, reachesRD); !okS {
+					r.add(rule, loopKey+" · element source "+c.Call.Value.Name(), w.instrPos(c), false, factS)
+				}
+			}
 			// exit edges
 			type exit struct {
 				from, to *ssa.BasicBlock
@@ -269,7 +307,8 @@ func (w *World) ruleLoopExits(r *Report, rule string, listsOnly bool) {
 	if listsOnly {
 		min = 2
 	}
-	r.floor(rule+" (element loops)", nLoops, min)
+	_ = nLoops
+	r.floor(rule+" (element loops)", len(served), min)
 }
 
 // leavesLoop: every path from b leaves the loop body (does not re-enter it).
@@ -340,6 +379,11 @@ func (w *World) classifyExitCond(cond ssa.Value, reads map[*ssa.Call]bool, lp *l
 		if _, isConst := cond.(*ssa.Const); isConst {
 			return "counter", "constant"
 		}
+		// a mode flag kept in a parameter struct (`shape.open`, `!p.fixed`): a
+		// projection of something the loop does not define
+		if loopInvariant(cond, lp, 0) {
+			return "flag", cond.String()
+		}
 		return "value", cond.String()
 	}
 	desc := bo.X.String() + " " + bo.Op.String() + " " + bo.Y.String()
@@ -372,7 +416,7 @@ func (w *World) classifyExitCond(cond ssa.Value, reads map[*ssa.Call]bool, lp *l
 	}
 	// flag: comparison not involving loop-defined values (e.g. tag == const)
 	for _, op := range []ssa.Value{bo.X, bo.Y} {
-		if in, ok := op.(ssa.Instruction); ok && lp.body[in.Block()] {
+		if in, ok := op.(ssa.Instruction); ok && lp.body[in.Block()] && !loopInvariant(op, lp, 0) {
 			return "value", desc
 		}
 	}
